@@ -18,6 +18,8 @@ ENGINES = [
          kind_free_text='generates every operator-expression tree up to a node bound as C++ (one template instantiation each) together with its reference AST; trees sharded over translation units'),
     dict(name='E3 object-pool BFS', path='checks/c10_pool.cpp (and the history search in checks/c03_arith.cpp)', serves_properties=['C10', 'C14', 'C03', 'C09'],
          kind_free_text='explicit-state breadth-first search over histories of public operations on a pool of live objects; states are re-created by replaying the shortest history on fresh real objects; canonical key = shapes + copy-provenance partition (C03: exact values); level-synchronous, 16 threads; fixpoint or depth bound'),
+    dict(name='E5 call-sequence explorer', path='seq/callseq.cpp', serves_properties=['C01', 'C02', 'C04', 'C05', 'C06', 'C07', 'C08', 'C11', 'C13', 'C14', 'C17', 'C09'],
+         kind_free_text='every sequence of calls up to a depth bound over a menu of 12-29 calls on LONG-LIVED forms, operator expressions, generators and splines (plus assignments / in-place updates of the argument splines, tracked by a reference state; objects on a second grid; temporary grids whose storage comes from a private LIFO arena so that address reuse is guaranteed); one pristine forked process per sequence; after every call: exact reference value, persistent operands unchanged, results of earlier calls unchanged, and (mutation-free menus) identity with the same call executed alone in a fresh process'),
     dict(name='E4 schedule explorer', path='sched/', serves_properties=['C18'],
          kind_free_text='stateless model checker for the implementation: compiler instrumentation (-fsanitize=thread) linked against an own runtime (scheduler at every synchronisation operation, vector-clock happens-before race detector, allocation shadow), iterative preemption bounding + state-cached DFS, every execution in a child forked from a pristine zygote'),
 ]
@@ -42,6 +44,34 @@ CHECKS['C13'] = dict(
                  'at:notcontained', 'at:contained', 'ivl:contained', 'ivl:notcontained', 'rel:contained', 'rel:notcontained']),
     assumptions=[A_SHAPE, 'index values between the probed regions behave like their neighbours'],
 )
+
+
+SEQ_DEPTH = dict(bf=(3, 4), lf=(3, 4), op=(3, 4), eval=(3, 4), mix=(3, 4), prim=(3, 4), gen=(3, 4), quad=(3, 5), grid=(3, 4), gridd=(3, 4), interp=(3, 4))
+
+
+def seq_unit(dom, mode='exact', name=None, depths=None):
+    """E5: call sequences on long-lived objects (seq/callseq.cpp), domain `dom`"""
+    dq, dt = depths or SEQ_DEPTH[dom]
+    return unit(name or ('seq-' + dom), 'seq/callseq.cpp', mode, args=['--domain', dom, '--depth', str(dq), '--depth-thorough', str(dt)],
+                flags=['-DVF_QUAD'] if dom == 'quad' else (['-DVF_INTERP', '-I/usr/include/eigen3'] if dom == 'interp' else []))
+
+
+def seq_filter(cid):
+    """violations of a call-sequence unit carry the property they belong to (seq:<id>:...); a check reports its own only"""
+    def f(v):
+        k = v['key']
+        if k.startswith('seq:'):
+            return k.startswith('seq:' + cid + ':')
+        if str(v.get('unit', '')).startswith('seq-') and cid == 'C14':
+            return False   # crashes inside a sequence belong to the domain's own property and to C09
+        return True
+    return f
+
+
+def with_seq(units_fn, *doms):
+    return lambda tier: units_fn(tier) + [seq_unit(d) for d in doms]
+
+SEQ_TEXT = ' Call sequences (E5): every sequence of up to 3 (thorough 4) calls over a menu of 10-15 calls on long-lived objects of this kind, each sequence in a pristine process, every result compared with the exact reference for the current argument state.'
 
 
 def std_units(src, modes=('exact', 'chk'), shards=NCPU):
@@ -506,14 +536,43 @@ CHECKS['C18'] = dict(
     level='model_checking',
     engine='E4 schedule explorer',
     technique='stateless model checking of the implementation: real pthreads serialised by a cooperative scheduler at every synchronisation point (atomic operation, static-initialisation guard, thread start/exit), iterative preemption bounding 0,1,2 followed by unbounded depth-first search with state caching; happens-before (vector-clock) race detection over every load and store reported by compiler instrumentation (-fsanitize=thread, linked against an own runtime), allocation shadow, and bit-wise comparison of every thread\'s results with a sequential run on every explored schedule',
-    level_text='Programs: all 169 ordered pairs of 13 operations (evaluate; copy+destroy of spline, support and grid; a+b, a*b, a-b, predicates; operator application incl. spline factor; bilinear/linear forms; generateBSplines; isZero with its function-local static; destruction of thread-owned copies sharing the grid; support algebra; combination with a spline on an equal grid held in a distinct object; X<2>, X<4>, Dx<2>; linearCombination, integrate<3>, product with an interval-free spline; move construction/assignment of the owned copy, getData and a new Grid over the shared storage) on shared const objects, further pairs with a class-type scalar (guarded static initialisation), 3-thread and 2x2-operation programs (thorough: all 455 unordered triples and all 2x2-operation programs over the five operations that copy, destroy or lazily initialise). For each program every schedule with at most 2 preemptions is covered (bounds 0, 1, 2 run to completion); the unbounded state-cached search is then run under an execution cap and completes for the smaller programs (counters say for how many). With synchronisation confined to read-modify-write chains on reference counts, one preemption already places any two code segments of two threads concurrently, so every potential race between segments is examined within the bound. On every execution: no pair of conflicting accesses unordered by happens-before, no use after free / double free, schedule-independent set of live blocks, no deadlock, per-operation result digests identical to the operation run alone.',
+    level_text='Programs: all 196 ordered pairs of 14 operations (evaluate; copy+destroy of spline, support and grid; a+b, a*b, a-b, predicates; operator application incl. spline factor; bilinear/linear forms; generateBSplines; isZero with its function-local static; destruction of thread-owned copies sharing the grid; support algebra; combination with a spline on an equal grid held in a distinct object; X<2>, X<4>, Dx<2>; linearCombination, integrate<3>, product with an interval-free spline; move construction/assignment of the owned copy, getData and a new Grid over the shared storage; copy + use + destruction of a generator, an operator expression with a spline factor and both forms) on shared const objects, further pairs with a class-type scalar that is neither arithmetic nor trivially copyable (guarded static initialisation; code paths chosen for heavy scalars), including every operation against itself, 3-thread and 2x2-operation programs (thorough: all 455 unordered triples and all 2x2-operation programs over the five operations that copy, destroy or lazily initialise). For each program every schedule with at most 2 preemptions is covered (bounds 0, 1, 2 run to completion); the unbounded state-cached search is then run under an execution cap and completes for the smaller programs (counters say for how many). With synchronisation confined to read-modify-write chains on reference counts, one preemption already places any two code segments of two threads concurrently, so every potential race between segments is examined within the bound. On every execution: no pair of conflicting accesses unordered by happens-before, no use after free / double free, schedule-independent set of live blocks, no deadlock, per-operation result digests identical to the operation run alone.',
     level_note='The harness TU is the real library code compiled with -fsanitize=thread; libstdc++ header code is instrumented too, libstdc++.so/libc internals are not (operator new/delete, memcpy/memmove/memset and the guard functions are interposed). Scheduler hand-offs are not happens-before edges. Sequentially consistent interleavings only; under _GLIBCXX_TSAN libstdc++ disables its double-word fast path in shared_ptr release, so that path is not covered. 2-3 threads, 1-2 operations each. A free-running pass of the same bodies under the real ThreadSanitizer runtime (unit tsan-free: all operation pairs, both scalar variants, repeated; thorough: all triples) is a secondary detector for code the instrumentation cannot see; it is not the deciding step.',
     units=c18_units,
     deadline=dict(quick=600, thorough=4200),
     rule='each evaluation is one complete (or state-cache-pruned) execution of a program under one schedule in a forked child; distinct_nontrivial = distinct orders in which the threads performed their synchronisation operations, summed over programs. counters: programs, executions, states, transitions, atomic/guard/plain access counts observed by the runtime.',
-    bounds=dict(quick='222 programs: 169 pairs + 25 class-scalar pairs + 18 triples + 10 2x2 programs; every schedule with <= 2 preemptions; unbounded search granted 6000 further executions per program',
+    bounds=dict(quick='260 programs: 196 pairs + 36 class-scalar pairs + 18 triples + 10 2x2 programs; every schedule with <= 2 preemptions; unbounded search granted 6000 further executions per program',
                 thorough='all pairs, all 455 unordered triples, 576 2x2-operation programs; every schedule with <= 2 preemptions; unbounded search granted 8000 further executions per program'),
     guards=dict(func=c18_guard, counters=['programs', 'executions', 'states', 'transitions'], classes=['threads:2:ops:1:variant0', 'threads:3:ops:1:variant0', 'threads:2:ops:2:variant0', 'threads:2:ops:1:variant1']),
     mc_note='states = distinct abstract states at scheduling points (per-thread progress, values observed, vector clocks, contents and clocks of all synchronisation words); transitions = scheduling points executed beyond replayed prefixes; every trace is an execution of the implementation.',
     assumptions=['data-race freedom makes interleavings at synchronisation points sufficient; any data race is itself reported', 'sequential consistency'],
 )
+
+
+# ---- E5 call-sequence units, attached to the properties whose long-lived objects they exercise -------------------------------
+def _chain(prev, f):
+    return (lambda v: f(v) and prev(v)) if prev else f
+
+
+for _cid, _doms in dict(C01=['gen'], C02=['eval'], C04=['prim'], C05=['op'], C06=['bf'], C07=['lf'], C17=['quad'], C08=['grid', 'gridd'], C11=['grid', 'gridd'], C13=['grid', 'gridd'], C12=['interp'], C03=['mix']).items():
+    _c = CHECKS[_cid]
+    _c['units'] = with_seq(_c['units'], *_doms)
+    _c['viol_filter'] = _chain(_c.get('viol_filter'), seq_filter(_cid))
+    _c['level_text'] += SEQ_TEXT
+    _c['engine'] = _c.get('engine', 'E1 input enumerator') + ' + E5 call-sequence explorer'
+    _c['guards'] = dict(_c['guards'], classes=_c['guards'].get('classes', []) + ['len3', 'repeated-call'], counters=_c['guards'].get('counters', []) + ['calls_executed'])
+    _c['bounds'] = dict(quick=_c['bounds']['quick'] + '; call sequences: menu ' + '/'.join(_doms) + ' to depth %d' % SEQ_DEPTH[_doms[0]][0],
+                        thorough=_c['bounds']['thorough'] + '; call sequences to depth %d' % SEQ_DEPTH[_doms[0]][1])
+
+_c = CHECKS['C14']
+_c['units'] = (lambda prev: (lambda tier: prev(tier) + [seq_unit('mix')] + [seq_unit(d, depths=(3, 3)) for d in ['bf', 'lf', 'op', 'prim', 'gen', 'eval', 'grid', 'interp']]))(_c['units'])
+_c['viol_filter'] = _chain(_c.get('viol_filter'), seq_filter('C14'))
+_c['engine'] = 'E3 object-pool BFS + E5 call-sequence explorer'
+_c['technique'] += '; plus exhaustive enumeration of call sequences (depth 3, thorough 4-5) on long-lived const objects (forms, operator expressions, generators, splines), each in a pristine process: persistent operands unchanged, results of earlier calls unchanged, every result identical to the same call executed alone'
+_c['level_text'] += ' Call sequences (E5): eight menus of 12-29 calls (bilinear and linear forms, operator expressions, primitive operators, generators, evaluation, grids that come and go, and a mixed menu of all kinds; the mixed menu to depth 4 in the thorough tier) on long-lived objects, objects on a second grid and temporary grids at reused addresses, every sequence up to depth 3 in a pristine process; after every call every persistent spline equals its reference state, every result returned earlier in the sequence still has its value, and (mutation-free menus) the result is identical to the same call executed alone in a fresh process - hidden state in const objects, function-local or global tables and scratch buffers would show here.'
+_c['guards'] = dict(_c['guards'], classes=_c['guards'].get('classes', []) + ['len3', 'repeated-call'], counters=_c['guards'].get('counters', []) + ['calls_executed'])
+_c['bounds'] = dict(quick=_c['bounds']['quick'] + '; call sequences: 8 menus to depth 3', thorough=_c['bounds']['thorough'] + '; call sequences: 8 menus to depth 3, the mixed menu to depth 4')
+
+_c = CHECKS['C09']
+_c['units'] = (lambda prev: (lambda tier: prev(tier) + [seq_unit(d, 'san', 'seq-san-' + d, depths=(3, 3)) for d in ['mix', 'bf', 'lf', 'op', 'gen', 'eval', 'grid']]))(_c['units'])
+_c['level_text'] += ' The call-sequence menus (E5: long-lived forms, operator expressions, generators, splines; every sequence to depth 3) run under the same sanitizer build.'
